@@ -169,6 +169,7 @@ CHECKS = {
             {"name": "TestC14Padding", "checks": [500, 20000], "shards": [2, 16], "floor": 0.5},
             {"name": "TestC14Thresholds", "enum": True},
             {"name": "TestC14Routes", "enum": True},
+            {"name": "TestC14Comments", "enum": True},
             {"name": "TestC14Soup", "checks": [4000, 60000], "shards": [2, 16], "floor": 0.5},
             K,
         ],
@@ -201,6 +202,7 @@ CHECKS = {
         "tests": [
             {"name": "TestC09Flow", "checks": [3000, 100000], "shards": [2, 16], "floor": 0.7},
             {"name": "TestC09Truthiness", "enum": True},
+            {"name": "TestC09Pointers", "enum": True},
             {"name": "TestC09Loops", "enum": True},
             K,
         ],
